@@ -274,35 +274,62 @@ fn rd_u64(b: &[u8], o: usize) -> u64 {
     (rd_u32(b, o) as u64) | ((rd_u32(b, o + 4) as u64) << 32)
 }
 
-fn roundtrip_case<const N: usize>() {
-    let words: [u64; N] = kani::any();
+/// loop-free little-endian store
+fn put_le(b: &mut [u8], o: usize, v: u64, n: usize) {
+    b[o] = v as u8;
+    if n >= 2 {
+        b[o + 1] = (v >> 8) as u8;
+    }
+    if n >= 4 {
+        b[o + 2] = (v >> 16) as u8;
+        b[o + 3] = (v >> 24) as u8;
+    }
+    if n >= 8 {
+        b[o + 4] = (v >> 32) as u8;
+        b[o + 5] = (v >> 40) as u8;
+        b[o + 6] = (v >> 48) as u8;
+        b[o + 7] = (v >> 56) as u8;
+    }
+}
+
+/// Round trip against a SPEC ENCODER (Bloom filter layout of datasketches-java/cpp) in an exact-size array
+/// (<= 64 bytes, structural fields literal): serialize() must equal it byte for byte (C12, C18), and the
+/// decoder is run on the spec image (C11).
+fn roundtrip_case<const N: usize, const LEN: usize>(empty: bool) {
+    let words: [u64; N] = if empty { [0u64; N] } else { kani::any() };
     let k: u16 = kani::any();
     kani::assume(k >= 1 && k <= 32767);
     let seed: u64 = kani::any();
     let f = mk(&words, k, seed);
-    let bytes = f.serialize();
     let pc = popcount(&words);
-    let empty = pc == 0;
-    // ---- independent spec decoder (C12)
-    assert!(bytes.len() == if empty { 24 } else { 32 + 8 * N }, "image length is not the layout's size");
-    assert!(bytes[0] == if empty { 3 } else { 4 }, "preamble longs");
-    assert!(bytes[1] == 1, "serial version");
-    assert!(bytes[2] == 21, "family id");
-    assert!((bytes[3] & 4 != 0) == empty, "empty flag");
-    assert!(bytes[3] & !4 == 0, "unknown flag bits set");
-    assert!(rd_u16(&bytes, 4) == k, "num_hashes field");
-    assert!(rd_u64(&bytes, 8) == seed, "seed field");
-    assert!(rd_u32(&bytes, 16) == N as u32, "num_longs field");
+    kani::assume(empty == (pc == 0));
+    let mut img = [0u8; LEN];
+    assert!(LEN == if empty { 24 } else { 32 + 8 * N });
+    img[0] = if empty { 3 } else { 4 }; // preamble longs
+    img[1] = 1; // serial version
+    img[2] = 21; // family id
+    img[3] = if empty { 4 } else { 0 }; // flags: empty bit 2
+    put_le(&mut img, 4, k as u64, 2); // num_hashes (+ 2 unused bytes)
+    put_le(&mut img, 8, seed, 8);
+    put_le(&mut img, 16, N as u64, 4); // num_longs (+ 4 unused bytes)
     if !empty {
-        assert!(rd_u64(&bytes, 24) == pc, "num_bits_set field");
+        put_le(&mut img, 24, pc, 8); // num_bits_set
         let mut i = 0;
         while i < N {
-            assert!(rd_u64(&bytes, 32 + 8 * i) == words[i], "bit array word");
+            put_le(&mut img, 32 + 8 * i, words[i], 8);
             i += 1;
         }
     }
+    let bytes = f.serialize();
+    assert!(bytes.len() == LEN, "image length is not the layout's size");
+    macro_rules! same_word {
+        ($($i:expr),*) => { $( if 8 * $i < LEN {
+            assert!(rd_u64(&bytes, 8 * $i) == rd_u64(&img, 8 * $i), "serialized bytes differ from the documented layout");
+        } )* };
+    }
+    same_word!(0, 1, 2, 3, 4, 5, 6, 7);
     // ---- round trip (C11)
-    let r = BloomFilter::deserialize(&bytes);
+    let r = BloomFilter::deserialize(&img);
     let g = crate::verif_kani_common::expect_ok(r, "own image rejected");
     assert!(g.seed == seed && g.num_hashes == k && g.num_bits_set == f.num_bits_set);
     assert!(g.bit_array.len() == N);
@@ -311,25 +338,36 @@ fn roundtrip_case<const N: usize>() {
         assert!(g.bit_array[i] == words[i], "bit array changed in round trip");
         i += 1;
     }
-    kani::cover!(empty);
-    kani::cover!(!empty);
+    kani::cover!(true);
     core::mem::forget((f, g, bytes));
 }
 
+macro_rules! bloom_roundtrip {
+    ($name:ident, $n:expr, $len:expr, $empty:expr) => {
+        #[kani::proof]
+        #[kani::unwind(6)]
+        #[kani::stub(alloc::fmt::format, stub_format)]
+        fn $name() {
+            roundtrip_case::<$n, $len>($empty);
+        }
+    };
+}
+
+//@ family: bloom_roundtrip
 //@ props: C11 C12 C18 C09
-//@ tier: quick
+//@ tier: thorough
 //@ timeout: 900
 //@ functions: bloom::BloomFilter::serialize
 //@ functions: bloom::BloomFilter::deserialize
-//@ bounds: filters of exactly 1 and 2 words with every content (bits_used = popcount, including the empty filter), every num_hashes in 1..=32767 and seed
-//@ desc: serialize() bytes match the Java/C++ Bloom layout (preLongs 3/4, serVer 1, family 21, empty flag bit 2, numHashes u16 @4, seed u64 @8, numLongs i32 @16, numBitsSet u64 @24, words @32, all little endian) decoded by an independent reader; length is a function of the configuration; deserialize(serialize(f)) == f field by field
-#[kani::proof]
-#[kani::unwind(12)]
-#[kani::stub(alloc::fmt::format, stub_format)]
-fn c11_bloom_roundtrip_layout() {
-    roundtrip_case::<1>();
-    roundtrip_case::<2>();
-}
+//@ unwind: 6
+//@ stubs: alloc::fmt::format -> empty string
+//@ bounds: filters of 1, 2 and 4 words: the empty filter and every non-empty content (bits_used = popcount), every num_hashes in 1..=32767 and seed
+//@ desc: serialize() equals, byte for byte, the image a spec encoder written from the Java/C++ Bloom layout produces (preLongs 3/4, serVer 1, family 21, empty flag bit 2, numHashes u16 @4, seed u64 @8, numLongs i32 @16, numBitsSet u64 @24, words @32, all little endian; 24 bytes when empty, else 32 + 8 * words); deserializing it restores the filter field by field
+bloom_roundtrip!(c11_bloom_roundtrip_empty_2, 2, 24, true); //@ tier: quick
+bloom_roundtrip!(c11_bloom_roundtrip_1, 1, 40, false); //@ tier: quick
+bloom_roundtrip!(c11_bloom_roundtrip_2, 2, 48, false); //@ tier: quick
+bloom_roundtrip!(c11_bloom_roundtrip_4, 4, 64, false);
+//@ endfamily: x
 
 fn foreign_case<const NW: usize>() {
     let n: usize = NW;
@@ -393,30 +431,76 @@ fn c13_bloom_foreign_image() {
 }
 
 //@ props: C14
-//@ tier: quick
-//@ timeout: 900
+//@ tier: thorough
+//@ timeout: 3600
 //@ functions: bloom::BloomFilter::deserialize
 //@ functions: bloom::BloomFilter::contains
 //@ functions: bloom::BloomFilter::insert
 //@ functions: bloom::BloomFilter::invert
 //@ functions: bloom::BloomFilter::serialize
 //@ functions: bloom::BloomFilter::union
-//@ bounds: every byte string of length 0..=48 (all 48 bytes symbolic, length symbolic); follow-up operations on an Ok value only when it holds <= 2 words
-//@ desc: deserialize returns Ok or Err without panic / overflow / out-of-bounds for every byte string; an Ok value can be queried, updated, inverted, merged with itself-shaped peer and re-serialized without panicking
+//@ bounds: every byte string of length 0..=48 (all 48 bytes symbolic, length symbolic)
+//@ desc: deserialize returns Ok or Err without panic / overflow / out-of-bounds for every byte string; an Ok value has >= 1 hash function and >= 1 word
 #[kani::proof]
 #[kani::unwind(8)]
 #[kani::stub(alloc::fmt::format, stub_format)]
 fn c14_bloom_deserialize_any_bytes() {
-    let img: [u8; 48] = kani::any();
+    bloom_any_bytes_case(false, false);
+}
+
+//@ props: C14
+//@ tier: quick
+//@ timeout: 900
+//@ functions: bloom::BloomFilter::deserialize
+//@ bounds: every byte string of length 0..=48 whose num_longs field (@16) is the literal 2 (the bit-array allocation is then concrete); every other byte (preamble, version, family, flags, num_hashes, seed, bit count, words) and the length symbolic
+//@ desc: deserialize returns Ok or Err without panic for every such byte string; an accepted image has bits_used == popcount of its words (a wrong stored count is recounted or rejected)
+#[kani::proof]
+#[kani::unwind(8)]
+#[kani::stub(alloc::fmt::format, stub_format)]
+fn c14_bloom_deserialize_any_bytes_two_words() {
+    bloom_any_bytes_case(false, true);
+}
+
+//@ props: C14
+//@ tier: thorough
+//@ timeout: 3600
+//@ functions: bloom::BloomFilter::deserialize
+//@ functions: bloom::BloomFilter::contains
+//@ functions: bloom::BloomFilter::insert
+//@ functions: bloom::BloomFilter::invert
+//@ functions: bloom::BloomFilter::serialize
+//@ functions: bloom::BloomFilter::union
+//@ bounds: as c14_bloom_deserialize_any_bytes, plus follow-up operations on an Ok value when it holds <= 2 words
+//@ desc: an accepted image can be queried, updated, inverted, merged with an identically shaped peer and re-serialized without panicking
+#[kani::proof]
+#[kani::unwind(8)]
+#[kani::stub(alloc::fmt::format, stub_format)]
+fn c14_bloom_deserialize_any_bytes_then_use() {
+    bloom_any_bytes_case(true, false);
+}
+
+fn bloom_any_bytes_case(follow_up: bool, two_words: bool) {
+    let mut img: [u8; 48] = kani::any();
     let len: usize = kani::any();
     kani::assume(len <= 48);
+    if two_words {
+        img[16] = 2;
+        img[17] = 0;
+        img[18] = 0;
+        img[19] = 0;
+    }
     let r = BloomFilter::deserialize(&img[..len]);
     kani::cover!(r.is_ok());
     kani::cover!(r.is_err());
     if let Ok(mut g) = r {
         assert!(g.num_hashes >= 1);
         assert!(g.bit_array.len() >= 1);
-        if g.bit_array.len() <= 2 && g.num_hashes <= 2 {
+        kani::cover!(g.bit_array.len() == 2);
+        if two_words {
+            assert!(g.bit_array.len() == 2);
+            assert!(g.bits_used() == (g.bit_array[0].count_ones() + g.bit_array[1].count_ones()) as u64, "accepted image whose bit count is not the population count");
+        }
+        if follow_up && g.bit_array.len() <= 2 && g.num_hashes <= 2 {
             kani::cover!(g.bit_array.len() == 2);
             let _ = g.bits_used();
             let _ = g.capacity();
